@@ -4,7 +4,7 @@ from __future__ import annotations
 from hypothesis import strategies as st
 
 from .. import cfdp_model as M
-from ..core import Clause, Dev, eq, expect_raise, true
+from ..core import Clause, Dev, eq, expect_raise, pack_fresh, scribble, true
 from ..prop import Property
 from ..ref import cfdp as R
 from ..strategies import hexblob, name, uint
@@ -37,7 +37,7 @@ def check_generic(c):
     t = c["type"]
     want = R.tlv(t, v)
     x = T.CfdpTlv(T.TlvType(t), v)
-    eq(devs, "tlv.pack", bytes(x.pack()), want)
+    pack_fresh(devs, "tlv.pack", x.pack, want)
     eq(devs, "tlv.packet_len", x.packet_len, len(v) + 2)
     eq(devs, "tlv.value", bytes(x.value), v)
     for tag, buf in (("exact", want), ("tail", want + tail), ("bytearray", bytearray(want + tail))):
@@ -49,7 +49,23 @@ def check_generic(c):
         true(devs, f"tlv.dec.eq.{tag}", y == x, "decoded TLV != original")
     wl = R.lv(v)
     lv = CfdpLv(v)
-    eq(devs, "lv.pack", bytes(lv.pack()), wl)
+    pack_fresh(devs, "lv.pack", lv.pack, wl)
+    # caller-owned mutable value buffers, reused after construction / after decoding
+    cv = bytearray(v)
+    x2, lv2 = T.CfdpTlv(T.TlvType(t), cv), CfdpLv(bytearray(v))
+    eq(devs, "tlv.pack_bytearray_value", bytes(x2.pack()), want)
+    eq(devs, "tlv.pack_bytearray_value_again", bytes(x2.pack()), want)
+    eq(devs, "tlv.caller_value_untouched", bytes(cv), v)
+    eq(devs, "lv.pack_bytearray_value", bytes(lv2.pack()), wl)
+    eq(devs, "lv.pack_bytearray_value_again", bytes(lv2.pack()), wl)
+    buf = bytearray(want + tail)
+    y = T.CfdpTlv.unpack(buf)
+    scribble(buf)
+    eq(devs, "tlv.dec.value_after_caller_reused_buffer", bytes(y.value), v)
+    buf = bytearray(wl + tail)
+    y = CfdpLv.unpack(buf)
+    scribble(buf)
+    eq(devs, "lv.dec.value_after_caller_reused_buffer", bytes(y.value), v)
     eq(devs, "lv.packet_len", lv.packet_len, len(v) + 1)
     for tag, buf in (("exact", wl), ("tail", wl + tail), ("bytearray", bytearray(wl + tail))):
         y = CfdpLv.unpack(buf)
@@ -136,7 +152,7 @@ def check_concrete(d):
     want = R.tlv_bytes(d)
     wo = want_concrete(d)
     x = M.build_tlv(d)
-    eq(devs, "enc.pack", bytes(x.pack()), want)
+    pack_fresh(devs, "enc.pack", x.pack, want)
     eq(devs, "enc.packet_len", x.packet_len, len(want))
     eq(devs, "enc.obs", obs_concrete(x, kind), wo)
     routes = [
@@ -145,12 +161,22 @@ def check_concrete(d):
         ("from_tlv", lambda: cls.from_tlv(T.CfdpTlv.unpack(want))),
         ("holder_generic", lambda: holder_call(T, T.TlvHolder(T.CfdpTlv.unpack(want)), kind)()),
         ("holder_concrete", lambda: holder_call(T, T.TlvHolder(x), kind)()),
+        # a generic TLV whose type was given as the plain integer read from the octets
+        ("from_tlv_int_type", lambda: cls.from_tlv(T.CfdpTlv(want[0], want[2:]))),
+        ("holder_generic_int_type", lambda: holder_call(T, T.TlvHolder(T.CfdpTlv(want[0], want[2:])), kind)()),
     ]
     for tag, fn in routes:
         y = fn()
         true(devs, f"dec.class.{tag}", isinstance(y, cls), f"got {type(y).__name__}")
         eq(devs, f"dec.obs.{tag}", obs_concrete(y, kind), wo)
         true(devs, f"dec.eq.{tag}", bool(y == x), "decoded TLV != original")
+    if kind == "fsresp":
+        # the filestore message LV is a caller-owned object that may have been packed (and its buffer reused) before
+        msg = CfdpLv(bytes.fromhex(d["msg"]))
+        scribble(msg.pack())
+        x3 = T.FileStoreResponseTlv(T.FilestoreActionCode(d["action"]), T.FilestoreResponseStatusCode((d["action"] << 4) | d["status"]), d["n1"], d["n2"], msg)
+        eq(devs, "enc.pack_with_previously_packed_msg_lv", bytes(x3.pack()), want)
+        eq(devs, "enc.packet_len_with_previously_packed_msg_lv", x3.packet_len, len(want))
     return devs
 
 
